@@ -161,6 +161,14 @@ def curated_classes():
         ('class', 'Cd', None, [('pass', ('str', 'c')), ('field', 'a', D), ('field', 'b', D), ('requires', 'a if b else 1'), ('requires', 'b or a'),
                                ('field', 'c', ('opt', ('str', '!'))), ('requires', 'a < 3 or c')]),
         ('class', 'Lm', None, [('pass', ('str', 'l')), ('field', 'a', D), ('requires', 'a != 1'), ('field', 'b', D), ('requires', 'not a or b'), ('requires', 'a + b != 5')])]))
+    # a requires condition is checked where it stands: before later members re-bind a name it mentions,
+    # and before later inline Python that it guards
+    out.append(('class-requires-position', [
+        ('rule', 'start', None, ('star', ('alt', [('ref', 'Ra'), ('ref', 'Rb'), ('ref', 'Rc'), D]))),
+        ('class', 'Ra', None, [('pass', ('str', 'r')), ('let', 'n', D), ('requires', 'n > 0'), ('let', 'n', ('py', 'n - 1')), ('field', 'v', ('py', 'n'))]),
+        ('class', 'Rb', None, [('pass', ('str', 's')), ('field', 'a', D), ('field', 'b', D), ('requires', 'b != 0'), ('field', 'q', ('py', 'a // b'))]),
+        ('class', 'Rc', None, [('pass', ('str', 't')), ('let', 'k', D), ('requires', 'k % 2 == 0'), ('let', 'k', ('py', 'k * 2 + 1')), ('field', 'v', ('py', 'k')),
+                               ('requires', 'k > 1')])]))
     out.append(('class-param', [
         ('rule', 'start', None, ('let', 'k', D, ('seq', [('call', 'Q', [('ref', 'k'), ('str', 'a')]), ('opt', ('call', 'Q', [('py', 'k + 1'), ('str', 'b')]))]))),
         ('class', 'Q', ['n', 'p'], [('field', 'items', ('rep', ('ref', 'p'), ('name', 'n'), ('name', 'n'))),
@@ -224,6 +232,7 @@ EXTRA_INPUTS = {
     # every pair of digits behind every class letter (the requires conditions are decided by the pair)
     'class-requires-adjacent': [h + x + y + t for h in 'pcl' for x in '0123' for y in '0123' for t in ('', '!')] +
                                ['p00p01', 'c10!c00', 'l23l32', 'p01 ', '3p10'],
+    'class-requires-position': [h + x for h in 'rt' for x in '0123'] + ['s' + x + y for x in '0123' for y in '0123'] + ['r1r0', 's10s11', 't2t1', 's', 'r', 't0'],
 }
 
 
